@@ -1,5 +1,7 @@
 package zzsim
 
+import "runtime"
+
 // Simulated state of the blocking primitives of package sync.  The simsync
 // wrappers call these before (acquire) and after (release) performing the
 // operation on an embedded real sync primitive, which at that point cannot
@@ -299,4 +301,131 @@ func SyncPoint() {
 	}
 	st.AtomicPoints++
 	point(tasks[cur].last, true)
+}
+
+// ---- channels inside the library ----
+//
+// The instrumenter rewrites channel receives and sends in library code into
+// calls of Recv / Recv2 / Send.  Under the simulator a channel operation that
+// is not ready must not block the goroutine that holds the baton (nobody else
+// could run and make it ready): the task polls, and between polls lets other
+// tasks run.  If every other unfinished task is blocked on a lock or has been
+// polling since the last progress anybody made, the run is a deadlock.
+
+// chanWait is called when a poll found the channel not ready.
+//
+//go:norace
+func chanWait() {
+	if !simTask() {
+		runtime.Gosched()
+		return
+	}
+	steps++
+	if steps > cfg.Budget {
+		die(ExitBudget, "budget", "step budget exceeded (a task keeps waiting on a channel)")
+	}
+	st.ChanWaits++
+	me := cur
+	t := &tasks[me]
+	t.spinning = true
+	t.spinAt = progress
+	var cand [MaxTasks]int
+	n := 0
+	for i := 0; i < ntasks; i++ {
+		if i != me && tasks[i].state == stRunnable && !(tasks[i].spinning && tasks[i].spinAt == progress) {
+			cand[n] = i
+			n++
+		}
+	}
+	if n == 0 {
+		// Goroutines the library started itself are outside the scheduler's
+		// control; give them real time before calling it a deadlock.
+		t.idleSpins++
+		if st.Foreign == 0 || t.idleSpins > 20000 {
+			die(ExitDeadlock, "deadlock", "a task waits on a channel and no other task can make progress")
+		}
+		runtime.Gosched()
+		return
+	}
+	nxt := cand[0]
+	if cfg.Strategy == StratReplay {
+		if e := replayEntry(true); e != nil && e.To >= 0 && e.To < ntasks && e.To != me && tasks[e.To].state == stRunnable {
+			nxt = e.To
+		}
+	} else if n > 1 {
+		nxt = cand[next()%uint64(n)]
+	}
+	handTo(nxt, true)
+}
+
+//go:norace
+func chanDone() {
+	if !simTask() {
+		return
+	}
+	t := &tasks[cur]
+	if t.spinning {
+		t.spinning = false
+		t.idleSpins = 0
+		progress++
+	}
+}
+
+//go:norace
+func simActive() bool { return mode == ModeActive }
+
+// Recv replaces `<-ch`.
+func Recv[T any](ch <-chan T) T {
+	if !simActive() {
+		return <-ch
+	}
+	SyncPoint()
+	for {
+		select {
+		case v := <-ch:
+			chanDone()
+			SyncPoint()
+			return v
+		default:
+			chanWait()
+		}
+	}
+}
+
+// Recv2 replaces `v, ok := <-ch`.
+func Recv2[T any](ch <-chan T) (T, bool) {
+	if !simActive() {
+		v, ok := <-ch
+		return v, ok
+	}
+	SyncPoint()
+	for {
+		select {
+		case v, ok := <-ch:
+			chanDone()
+			SyncPoint()
+			return v, ok
+		default:
+			chanWait()
+		}
+	}
+}
+
+// Send replaces `ch <- v`.
+func Send[T any](ch chan<- T, v T) {
+	if !simActive() {
+		ch <- v
+		return
+	}
+	SyncPoint()
+	for {
+		select {
+		case ch <- v:
+			chanDone()
+			SyncPoint()
+			return
+		default:
+			chanWait()
+		}
+	}
 }
